@@ -219,6 +219,9 @@ class Check(object):
         if key is not None and self.is_known(key):
             self.known_hits.append((key, what))
             return
+        if len(self.violations) >= 8:
+            self.violations_suppressed = getattr(self, "violations_suppressed", 0) + 1
+            return
         os.makedirs(os.path.join(VERIF, "replays", self.prop), exist_ok=True)
         h = hashlib.sha1(json.dumps(replay_data, sort_keys=True, default=str).encode()).hexdigest()[:10]
         path = os.path.join(VERIF, "replays", self.prop, "%s_%s.json" % (self.prop, h))
@@ -336,7 +339,7 @@ class Check(object):
             },
             "assumptions": self.assumptions + ["stub: " + s for s in self.stubs],
             "wall_s": round(time.time() - self.t0, 2),
-            "violations": len(self.violations),
+            "violations": len(self.violations) + getattr(self, "violations_suppressed", 0),
         }
         os.makedirs(os.path.join(VERIF, "evidence"), exist_ok=True)
         with open(os.path.join(VERIF, "evidence", self.prop + ".json"), "w") as f:
